@@ -135,7 +135,56 @@ func c07Hooks(level int) limHooks {
 	}
 }
 
+// c07Win is the ghost state of the windowed variants: what the wrapper has been fed since its
+// delegate was last updated.
+type c07Win struct {
+	calls   int
+	maxInfl int
+	drop    bool
+}
+
+// c07WindowedHooks: the demand gate seen through the windowed wrapper. When the wrapper hands a
+// window to the algorithm and no sample fed since the previous hand-over had an in-flight count of
+// at least half the estimate (and none was a drop), the estimate must not rise: idle periods cannot
+// inflate the limit, however the window is aggregated.
+func c07WindowedHooks(level int) limHooks {
+	return limHooks{
+		name: "C07", level: level, withZero: false, withHuge: false,
+		newAux:  func(li *limInst) any { return &c07Win{} },
+		fpExtra: func(li *limInst) string { a := li.aux.(*c07Win); return fmt.Sprint(a.maxInfl, a.drop) },
+		step: func(li *limInst, s sample, before, after int, pm string, t *mc.Tr) {
+			a := li.aux.(*c07Win)
+			if pm != "" || li.counting == nil {
+				return
+			}
+			if s.inflight > a.maxInfl {
+				a.maxInfl = s.inflight
+			}
+			a.drop = a.drop || s.drop
+			if li.counting.Calls == a.calls {
+				return // no hand-over during this sample
+			}
+			idle := !a.drop && 2*a.maxInfl < before
+			if li.cfg.algo == "aimd" {
+				idle = !a.drop && a.maxInfl < before
+			}
+			if idle && after > before {
+				t.Fail(li.cfg.algo+"+windowed/app-limited-growth", "a window whose samples had at most %d in flight raised the estimate %d -> %d (closing sample %s)", a.maxInfl, before, after, s)
+			}
+			a.calls, a.maxInfl, a.drop = li.counting.Calls, 0, false
+		},
+	}
+}
+
 func runC07(c *Ctx) {
+	// behind the windowed wrapper: estimates large enough for a closing sample (in-flight > 10) to be idle
+	for _, cfg := range []limCfg{
+		{algo: "gradient", wrapper: "windowed", initial: 50, min: 1, max: 100, smoothing: 1.0, queue: "fixed2", tol: 2.0, probe: -1},
+		{algo: "gradient2", wrapper: "windowed", initial: 50, min: 1, max: 100, smoothing: 1.0, queue: "fixed2", longWin: 3},
+		{algo: "vegas", wrapper: "windowed", initial: 50, max: 100, smoothing: 1.0, probe: 30},
+	} {
+		c.runBFS(limModel(cfg, c07WindowedHooks(0)), mc.BFSOptions{MaxDepth: c.Pick(6, 7), DevBound: 1, MaxStates: 300000})
+	}
 	level := c.Pick(0, 1)
 	depth := c.Pick(6, 7)
 	for _, cfg := range limGrid(1) {
